@@ -1604,6 +1604,11 @@ silent("c16-s-issubclass-fallback-unwrapped-inline", "C16", "funsor/typing.py",
        "        if not isinstance(subcls, type):\n            subcls = get_origin(subcls) or subcls\n        return issubclass(subcls, cls)\n",
        "        return issubclass(subcls if isinstance(subcls, type) else (get_origin(subcls) or subcls), cls)\n")
 
+fire("c18-trace-record-mixes-raw-positionals-with-bound-kwargs", "C18", OP,
+     "                op = cls(*args[cls.arity :], **kwargs)\n", "                op = cls(*raw_args[cls.arity :], **kwargs)\n", "R18.7", "Op.__call__")
+silent("c18-s-trace-record-from-bound-arguments-directly", "C18", OP,
+       "                op = cls(*args[cls.arity :], **kwargs)\n", "                op = cls(*bound.args[cls.arity :], **bound.kwargs)\n")
+
 # ===== derived variants: must stay at the END of this file (they enumerate every rename() variant above) =====
 # `if c: A else: B` -> `if not c: B else: A` in the anchor functions (behaviour-preserving)
 def invert(prop, file, qual):
